@@ -231,28 +231,7 @@ func runC08(e *Engine, r *Report) {
 		}
 	}
 	// ---- last-applied published only after the entries were applied
-	if h := r.need("(*internal/rsm.StateMachine).handle"); h != nil {
-		sla := r.need("(*internal/rsm.StateMachine).setLastApplied")
-		he := e.Func("(*internal/rsm.StateMachine).handleEntry")
-		hb := e.Func("(*internal/rsm.StateMachine).handleBatch")
-		if sla != nil && he != nil && hb != nil {
-			for _, s := range e.SitesIn(h, sla) {
-				// no path from setLastApplied back to an apply call within the same task iteration:
-				// every apply call site dominates... simpler: setLastApplied is not followed by handleEntry/handleBatch for the same entries
-				c := s.(*ssa.Call)
-				sameArgApplied := false
-				for _, f := range []*ssa.Function{he, hb} {
-					for _, as := range e.SitesIn(h, f) {
-						if dominatesInstr(c, as.(ssa.Instruction)) {
-							sameArgApplied = true
-						}
-					}
-				}
-				r.check(!sameArgApplied, "MPT-lastapplied-after-apply", "setLastApplied in handle comes after the entries were applied", e.ipos(s),
-					"the applied cursor that releases reads and snapshots is published only after Update returned", "the last-applied cursor is published before the entries are applied: reads can be released against state that does not contain them yet")
-			}
-		}
-	}
+	ruleLastAppliedAfterApply(e, r)
 	// ---- compacted log on the leader: snapshot fallback
 	if srm := r.need(raftT + "sendReplicateMessage"); srm != nil {
 		mk := r.need(raftT + "makeReplicateMessage")
